@@ -1,3 +1,259 @@
-(* SQLM - theorems of the SQL-backend model (SQL halves of C09, C08, C17, C07, C06, C01, C12, C02, C11).
-   Property theorems only; proofs are in SQLM/Proofs_*.v and SQLM/Thm_*.v. *)
-From NR Require Import Lib.Base SQLM.Run.
+(* SQLM - theorems of the SQL-backend model (nostr_relay/storage/db.py on SQLite): the SQL halves of
+   C09, C08, C17, C07, C06, C01, C12, C02, C11.  Property theorems only; proofs are in SQLM/Proofs_*.v
+   and SQLM/Thm_C*.v.  All statements are over run_history now h = the store after ANY history h of
+   submissions (no bound), or over an arbitrary store satisfying the invariant Inv where noted. *)
+From NR Require Import Lib.Base Lib.Nip01 SQLM.Rel SQLM.Write SQLM.Query SQLM.Text SQLM.Where SQLM.Req SQLM.Spec
+     SQLM.Proofs_Text SQLM.Proofs_Shape SQLM.Proofs_Rel SQLM.Proofs_Write SQLM.Proofs_Gc SQLM.Proofs_Where SQLM.Proofs_Hist
+     SQLM.Abbrev SQLM.Proofs_Const SQLM.Proofs_SaText SQLM.Thm_C09 SQLM.Thm_C08 SQLM.Thm_C17 SQLM.Thm_C07 SQLM.Thm_C06 SQLM.Thm_C01 SQLM.Thm_C12 SQLM.Thm_C02 SQLM.Thm_C11 SQLM.Run.
+From NR Require Import Gen.SqlConst Gen.Kinds.
+From Coq Require Import Sorting.Permutation.
+Open Scope list_scope. Open Scope Z_scope.
+
+(* ---------------- invariant over all histories ---------------- *)
+(* primary key, TagsCoherent (tags table = the tag rows process_tags derives from the stored events), rows well-formed *)
+Theorem SQLM_history_invariant : forall now h, Inv (run_history now h).
+Proof. exact history_Inv. Qed.
+Print Assumptions SQLM_history_invariant.
+
+(* ---------------- C09 ---------------- *)
+Theorem C09_sql_replace_removes_older : forall now h e r0,
+  row_of_event (event_init now e) = Some r0 -> outcome now h e = inl true ->
+  forall x, In x (stored (run_history now h)) -> same_address x (event_of_row r0) = true ->
+            w_created x < w_created (event_of_row r0) -> in_store x (stored (after now h e)) = false.
+Proof. exact sql_replace_removes_older. Qed.
+Print Assumptions C09_sql_replace_removes_older.
+Theorem C09_sql_replace_frame : forall now h e r0,
+  row_of_event (event_init now e) = Some r0 ->
+  forall x, In x (stored (run_history now h)) -> in_store x (stored (after now h e)) = false ->
+            (same_address x (event_of_row r0) = true /\ w_created x <= w_created (event_of_row r0)) \/
+            may_delete (event_of_row r0) x = true.
+Proof. exact sql_replace_frame. Qed.
+Print Assumptions C09_sql_replace_frame.
+Theorem C09_sql_replace_frame_regular : forall now h e r0,
+  row_of_event (event_init now e) = Some r0 -> w_kind (event_of_row r0) <> 5 ->
+  forall x, In x (stored (run_history now h)) -> in_store x (stored (after now h e)) = false ->
+            same_address x (event_of_row r0) = true /\ w_created x <= w_created (event_of_row r0).
+Proof. exact sql_replace_frame_regular. Qed.
+Print Assumptions C09_sql_replace_frame_regular.
+(* for an admitted event the stored form is the event itself *)
+Theorem SQLM_canonical : forall e r, wf_wevent e = true -> row_of_event e = Some r -> event_of_row r = e.
+Proof. exact sql_canonical. Qed.
+Print Assumptions SQLM_canonical.
+
+(* ---------------- C08 ---------------- *)
+Theorem C08_sql_delete_frame : forall now h e r0,
+  row_of_event (event_init now e) = Some r0 -> r_kind r0 = 5 ->
+  forall x, In x (stored (run_history now h)) -> in_store x (stored (after now h e)) = false -> may_delete (event_of_row r0) x = true.
+Proof. exact sql_delete_frame. Qed.
+Print Assumptions C08_sql_delete_frame.
+Theorem C08_sql_delete_effective : forall now h e r0,
+  row_of_event (event_init now e) = Some r0 -> outcome now h e = inl true ->
+  forall x, In x (stored (run_history now h)) -> may_delete (event_of_row r0) x = true -> in_store x (stored (after now h e)) = false.
+Proof. exact sql_delete_effective. Qed.
+Print Assumptions C08_sql_delete_effective.
+Theorem C08_sql_deleted_unreachable : forall now h e rx,
+  In rx (d_events (run_history now h)) -> in_store (event_of_row rx) (stored (after now h e)) = false ->
+  (forall dl ml fs, ~ In rx (req dl ml (after now h e) fs)) /\ TagsCoherent (after now h e).
+Proof. exact sql_deleted_unreachable. Qed.
+Print Assumptions C08_sql_deleted_unreachable.
+
+(* ---------------- C17 ---------------- *)
+Theorem C17_sql_gc_exact : forall now h T, T <= int64_max ->
+  stored (fst (collect T (run_history now h))) = List.filter (fun e => negb (may_collect T e)) (stored (run_history now h)).
+Proof. exact sql_gc_exact. Qed.
+Print Assumptions C17_sql_gc_exact.
+Theorem C17_sql_gc_frame : forall now h T,
+  Inv (fst (collect T (run_history now h))) /\
+  forall r, In r (d_events (fst (collect T (run_history now h)))) -> In r (d_events (run_history now h)).
+Proof. exact sql_gc_frame. Qed.
+Print Assumptions C17_sql_gc_frame.
+Theorem C17_sql_gc_statement : forall now h T, T <= int64_max ->
+  c17_ok T (stored (run_history now h)) (stored (fst (collect T (run_history now h)))) = true.
+Proof. exact sql_gc_statement. Qed.
+Print Assumptions C17_sql_gc_statement.
+
+(* ---------------- C07 ---------------- *)
+Theorem C07_sql_fail_at_k_restores : forall now d e k, (k < length (writes_sql now d e))%nat ->
+  let r := add_event (Some k) now true true d e in
+  ar_db r = d /\ ar_out r = inr EOperational /\
+  ar_trace r = TBegin :: map TStmt (firstn (S k) (writes_sql now d e)) ++ [TRollback].
+Proof. exact sql_fail_at_k_restores. Qed.
+Print Assumptions C07_sql_fail_at_k_restores.
+Theorem C07_sql_later_events_unaffected : forall now f valid can d e x rest,
+  ar_out (add_event f now valid can d e) = inr x ->
+  fold_left (submit now) rest (ar_db (add_event f now valid can d e)) = fold_left (submit now) rest d.
+Proof. exact sql_later_events_unaffected. Qed.
+Print Assumptions C07_sql_later_events_unaffected.
+Theorem C07_sql_single_txn : forall now d e f,
+  let r := add_event f now true true d e in
+  exists stmts, (ar_trace r = TBegin :: map TStmt stmts ++ [TCommit; TNotify] /\ ar_out r = inl true) \/
+                (ar_trace r = TBegin :: map TStmt stmts ++ [TCommit] /\ ar_out r = inl false) \/
+                (ar_trace r = TBegin :: map TStmt stmts ++ [TRollback] /\ exists x, ar_out r = inr x /\ ar_db r = d).
+Proof. exact sql_single_txn. Qed.
+Print Assumptions C07_sql_single_txn.
+Theorem C07_sql_notify_after_commit : forall now valid can d e f,
+  In TNotify (ar_trace (add_event f now valid can d e)) ->
+  exists stmts, ar_trace (add_event f now valid can d e) = TBegin :: map TStmt stmts ++ [TCommit; TNotify] /\
+                ar_out (add_event f now valid can d e) = inl true.
+Proof. exact sql_notify_after_commit. Qed.
+Print Assumptions C07_sql_notify_after_commit.
+
+(* ---------------- C06 (b)-(e) ---------------- *)
+Theorem C06_sql_ack_true_stored : forall now h e r0,
+  row_of_event (event_init now e) = Some r0 -> outcome now h e = inl true ->
+  ref_in (r_tags r0) (r_id r0) = false -> In r0 (d_events (after now h e)).
+Proof. exact sql_ack_true_stored. Qed.
+Print Assumptions C06_sql_ack_true_stored.
+Theorem C06_sql_valid_event_accepted : forall now h e r0,
+  wf_wevent (event_init now e) = true -> row_of_event (event_init now e) = Some r0 ->
+  has_id (r_id r0) (d_events (run_history now h)) = false -> outcome now h e = inl true.
+Proof. exact sql_valid_event_accepted. Qed.
+Print Assumptions C06_sql_valid_event_accepted.
+Theorem C06_sql_refused_no_trace : forall now h e,
+  outcome now h e <> inl true ->
+  after now h e = run_history now h /\ ~ In TNotify (ar_trace (add_event None now true true (run_history now h) e)).
+Proof. exact sql_refused_no_trace. Qed.
+Print Assumptions C06_sql_refused_no_trace.
+Theorem C06_sql_resubmission : forall now h e r0,
+  row_of_event (event_init now e) = Some r0 -> has_id (r_id r0) (d_events (run_history now h)) = true ->
+  after now h e = run_history now h /\ ~ In TNotify (ar_trace (add_event None now true true (run_history now h) e)).
+Proof. exact sql_resubmission. Qed.
+Print Assumptions C06_sql_resubmission.
+Theorem C06_sql_not_admitted_untouched : forall f now valid can d e, valid && can = false ->
+  ar_db (add_event f now valid can d e) = d /\ ar_trace (add_event f now valid can d e) = [].
+Proof. exact sql_not_admitted_untouched. Qed.
+Print Assumptions C06_sql_not_admitted_untouched.
+
+(* ---------------- C01 ---------------- *)
+Theorem C01_sql_lex_string_quote : forall v rest, head_is (N.eqb c_quote) rest = false ->
+  lex_string (sql_quote v ++ c_quote :: rest) = Some (v, rest).
+Proof. exact sql_lex_string_quote. Qed.
+Print Assumptions C01_sql_lex_string_quote.
+Theorem C01_sql_lex_roundtrip : forall toks, wf_toks toks = true -> lex (render toks) = Some toks.
+Proof. exact sql_lex_roundtrip_thm. Qed.
+Print Assumptions C01_sql_lex_roundtrip.
+Theorem C01_sql_build_query_tokens_wf : forall dl ml fs,
+  forallb valid_filter fs = true -> wf_toks (query_toks (build_query dl ml fs)) = true.
+Proof. exact sql_build_query_tokens_wf. Qed.
+Print Assumptions C01_sql_build_query_tokens_wf.
+Theorem C01_sql_build_query_shape : forall dl ml fs fs', map shape fs = map shape fs' ->
+  map erase (map clause_toks (q_where (build_query dl ml fs))) = map erase (map clause_toks (q_where (build_query dl ml fs'))).
+Proof. exact sql_build_query_shape. Qed.
+Print Assumptions C01_sql_build_query_shape.
+Theorem C01_sql_where_sound : forall f r, validated f -> row_ok r -> row32 r -> P_sql f r = true -> may_match f (event_of_row r) = true.
+Proof. exact sql_where_sound_thm. Qed.
+Print Assumptions C01_sql_where_sound.
+Theorem C01_sql_sound : forall now h dl ml fs r, wf_history now h -> fs <> [] -> Forall validated fs ->
+  In r (req_exec dl ml (run_history now h) fs) ->
+  In r (d_events (run_history now h)) /\ exists f, In f fs /\ may_match f (event_of_row r) = true.
+Proof. exact sql_c01_sound. Qed.
+Print Assumptions C01_sql_sound.
+
+(* F27 repaired: whatever the Unicode word-character predicate of Python's \w (it excludes ':', '\' and the quote),
+   sqlalchemy.text() hands SQLite a statement that lexes to exactly the model's tokens *)
+Theorem C01_sql_received_statement : forall w dl ml fs,
+  w c_colon = false -> w c_bslash = false -> w c_quote = false -> forallb valid_filter fs = true ->
+  let toks := query_toks (build_query dl ml fs) in
+  exists received, sa_text_pre w (py_render toks) = Some received /\ lex received = Some toks.
+Proof. exact sql_received_statement. Qed.
+Print Assumptions C01_sql_received_statement.
+
+(* ---------------- C12 ---------------- *)
+Theorem C12_sql_limit_newest : forall d q, 0 <= q_limit q ->
+  Z.of_nat (length (answer d q)) <= q_limit q /\
+  (forall r, In r (answer d q) -> In r (matching d (q_where q))) /\
+  (forall x y, In x (matching d (q_where q)) -> ~ In x (answer d q) -> In y (answer d q) -> r_created x <= r_created y) /\
+  (Z.of_nat (length (matching d (q_where q))) <= q_limit q -> Permutation (answer d q) (matching d (q_where q))).
+Proof. exact sql_limit_newest. Qed.
+Print Assumptions C12_sql_limit_newest.
+Theorem C12_sql_limit_value_single_partial : forall dl ml f, evaluate_filter f <> None ->
+  query_limit dl ml [f] = match f_limit f with Some l => Z.min l dl | None => dl end.
+Proof. exact sql_limit_value_single. Qed.
+Print Assumptions C12_sql_limit_value_single_partial.
+Theorem C12_sql_limit_value_last : forall dl ml fs f, evaluate_filter f <> None ->
+  query_limit dl ml (fs ++ [f]) = match f_limit f with Some l => Z.min l dl | None => query_limit dl ml fs end.
+Proof. exact sql_limit_value_last. Qed.
+Print Assumptions C12_sql_limit_value_last.
+Theorem C12_sql_multi_filter_limit_refuted : exists dl ml d fs, per_filter_limit_ok dl ml d fs = false.
+Proof. exact sql_multi_filter_limit_refuted. Qed.
+Print Assumptions C12_sql_multi_filter_limit_refuted.
+
+(* ---------------- C02 ---------------- *)
+Theorem C02_sql_complete : forall f r, wf_filter f -> has_conditions f -> row_ok r ->
+  must_match f (event_of_row r) = true -> P_sql f r = true.
+Proof. exact sql_complete_thm. Qed.
+Print Assumptions C02_sql_complete.
+Theorem C02_sql_complete_partial : forall now h dl ml f r, 0 <= query_limit dl ml [f] ->
+  valid_filter f = true -> wf_filter f -> has_conditions f ->
+  Z.of_nat (length (List.filter (P_sql f) (d_events (run_history now h)))) <= query_limit dl ml [f] ->
+  In r (d_events (run_history now h)) -> must_match f (event_of_row r) = true ->
+  count_occ_b (fun y => bytes_eqb (r_id y) (r_id r)) (req_exec dl ml (run_history now h) [f]) = 1%nat.
+Proof. exact sql_c02_complete_partial. Qed.
+Print Assumptions C02_sql_complete_partial.
+Theorem C02_sql_refuted_nul : exists d f, c02_full 100 100 d f = false.
+Proof. exact sql_c02_refuted_nul. Qed.
+Print Assumptions C02_sql_refuted_nul.
+Theorem C02_sql_refuted_no_conditions : exists d f, c02_full 100 100 d f = false.
+Proof. exact sql_c02_refuted_no_conditions. Qed.
+Print Assumptions C02_sql_refuted_no_conditions.
+
+(* ---------------- C11 ---------------- *)
+Theorem C11_sql_P_between : forall f r, row_ok r ->
+  (wf_filter f -> has_conditions f -> must_match f (event_of_row r) = true -> P_sql f r = true) /\
+  (validated f -> row32 r -> P_sql f r = true -> may_match f (event_of_row r) = true).
+Proof. exact sql_P_between. Qed.
+Print Assumptions C11_sql_P_between.
+Theorem C11_sql_answer_exact : forall now h dl ml f,
+  req dl ml (run_history now h) [f] =
+  sql_limit (query_limit dl ml [f]) (sort_desc (List.filter (P_sql f) (d_events (run_history now h)))).
+Proof. exact sql_answer_exact. Qed.
+Print Assumptions C11_sql_answer_exact.
+Theorem C11_sql_unrelated_data : forall dl ml d d2 f extra, Inv d -> Inv d2 -> validated f ->
+  (forall r, In r (d_events d2) <-> In r (d_events d) \/ In r extra) ->
+  (forall r, In r extra -> row_ok r /\ row32 r /\ may_match f (event_of_row r) = false) ->
+  forall r, In r (matching d2 (q_where (build_query dl ml [f]))) <-> In r (matching d (q_where (build_query dl ml [f]))).
+Proof. exact sql_unrelated_data. Qed.
+Print Assumptions C11_sql_unrelated_data.
+Theorem C11_sql_monotone : forall dl ml d f f', Inv d -> clause_stronger (clause_of f') (clause_of f) ->
+  forall r, In r (matching d (q_where (build_query dl ml [f']))) -> In r (matching d (q_where (build_query dl ml [f]))).
+Proof. exact sql_monotone. Qed.
+Print Assumptions C11_sql_monotone.
+Theorem C11_sql_more_conditions_stronger : forall c extra, c <> [] -> clause_stronger (c ++ extra) c.
+Proof. exact sql_more_conditions_stronger. Qed.
+Print Assumptions C11_sql_more_conditions_stronger.
+Theorem C11_sql_narrower_window_stronger : forall tags r pre post s s', s <= s' ->
+  eval_clause tags r (pre ++ CSince s' :: post) = true -> eval_clause tags r (pre ++ CSince s :: post) = true.
+Proof. exact sql_narrower_window_stronger. Qed.
+Print Assumptions C11_sql_narrower_window_stronger.
+Theorem C11_sql_union_over_values : forall tags r pre post cab ca cb,
+  eval_cond tags r cab = eval_cond tags r ca || eval_cond tags r cb ->
+  eval_clause tags r (pre ++ cab :: post) = eval_clause tags r (pre ++ ca :: post) || eval_clause tags r (pre ++ cb :: post).
+Proof. exact sql_union_over_values. Qed.
+Print Assumptions C11_sql_union_over_values.
+
+(* ---------------- ties to the source, re-checked against Gen/*.v on every run ---------------- *)
+Theorem SQLM_gc_query_tie : lex Gen.SqlConst.gc_query = Some gc_template.
+Proof. exact gc_query_tie. Qed.
+Print Assumptions SQLM_gc_query_tie.
+Theorem SQLM_select_text_tie : lex Gen.SqlConst.select_text = Some select_head /\ lex (Gen.SqlConst.tail_text ++ pys "5") = Some (select_tail 5).
+Proof. split; [exact select_text_tie | exact tail_text_tie]. Qed.
+Print Assumptions SQLM_select_text_tie.
+Theorem SQLM_interpolation_lint : Gen.SqlConst.sql_interpolations_ok = true.
+Proof. exact sql_interpolations_checked. Qed.
+Print Assumptions SQLM_interpolation_lint.
+Theorem SQLM_indexed_name_tie : forall n, indexed_name n = mem_str n Gen.SqlConst.indexed_long_names || Nat.eqb (length n) 1.
+Proof. exact indexed_name_tie. Qed.
+Print Assumptions SQLM_indexed_name_tie.
+Theorem SQLM_kinds_tie : forall e,
+  is_repl_py (w_kind e) = k_is_replaceable (vev e) /\ is_param_py (w_kind e) = k_is_paramaterized_replaceable (vev e) /\
+  Write.kind_DELETE = Gen.Kinds.kind_DELETE /\ Write.kind_SET_METADATA = Gen.Kinds.kind_SET_METADATA /\
+  Write.kind_CONTACTS = Gen.Kinds.kind_CONTACTS.
+Proof. exact kinds_tie. Qed.
+Print Assumptions SQLM_kinds_tie.
+
+(* non-vacuity of the history-level hypotheses: a reachable, non-trivial store satisfying wf_history *)
+Example SQLM_history_inhabited :
+  wf_wevent (Examples.mkev "01" "aa" 10 1 [["t"; "x"]]%string) = true /\
+  length (d_events (run_history Examples.now0 [Examples.mkev "01" "aa" 10 1 [["t"; "x"]]%string])) = 1%nat /\
+  length (d_tags (run_history Examples.now0 [Examples.mkev "01" "aa" 10 1 [["t"; "x"]]%string])) = 1%nat.
+Proof. vm_compute. repeat split; reflexivity. Qed.
